@@ -19,6 +19,7 @@ func c09(r *core.Report) {
 	c09Route(r)
 	c09NotFound(r)
 	c09Encoded(r)
+	c09Boundary(r)
 }
 
 // methodConstAndFields: the http.Method* constants and the *Operation fields of PathItem mentioned in a node.
@@ -483,5 +484,85 @@ func c09Encoded(r *core.Report) {
 		} else {
 			r.Check(!usesEscaped, "encoded:base-path", p.Pos(baseE.Pos()), "base path from the decoded path, router matches on the decoded path", "the router matches on the decoded path but the base path is escaped")
 		}
+	})
+}
+
+// c09Boundary: a server matches only at a path-segment boundary.
+func c09Boundary(r *core.Report) {
+	p := r.Prog
+	info := p.Pkg("openapi3").TypesInfo
+	r.RunRule("C09.boundary", "a server URL matches a request URL only up to a segment boundary: Server.MatchRawURL (used by the legacy router through Servers.MatchURL) has a `no match` return that is taken when what remains of the input after the server URL is non-empty and does not start with '/', and its success return is reached only past that test; without it `https://host/v1` also matches `https://host/v1beta/...` and `https://host.evil.org/...`, and the rest of the path is handed to the pattern tree as if it were under that server", 2, func() {
+		fd := p.DeclOf("openapi3", "Server.MatchRawURL")
+		var inputObj types.Object
+		for _, fl := range fd.Type.Params.List {
+			for _, nm := range fl.Names {
+				inputObj = info.Defs[nm]
+			}
+		}
+		isBoundaryTest := func(a core.Atom, wantRooted bool) bool {
+			// input[0] != '/' (rooted=false when Pos) / strings.HasPrefix(input, "/")
+			switch x := ast.Unparen(a.Expr).(type) {
+			case *ast.BinaryExpr:
+				ix, ok := ast.Unparen(x.X).(*ast.IndexExpr)
+				if !ok {
+					return false
+				}
+				id, ok := ast.Unparen(ix.X).(*ast.Ident)
+				if !ok || info.ObjectOf(id) != inputObj {
+					return false
+				}
+				if k, ok := intConst(info, ix.Index); !ok || k != 0 {
+					return false
+				}
+				tv, ok := info.Types[x.Y]
+				if !ok || tv.Value == nil || tv.Value.ExactString() != "47" {
+					return false
+				}
+				rooted := (x.Op == token.EQL) == a.Pos
+				return rooted == wantRooted
+			case *ast.CallExpr:
+				callee := core.CalleeOf(info, x)
+				if callee == nil || callee.Name() != "HasPrefix" || len(x.Args) != 2 {
+					return false
+				}
+				id, ok := ast.Unparen(x.Args[0]).(*ast.Ident)
+				if !ok || info.ObjectOf(id) != inputObj {
+					return false
+				}
+				if sv, ok := strConst(info, x.Args[1]); !ok || sv != "/" {
+					return false
+				}
+				return a.Pos == wantRooted
+			}
+			return false
+		}
+		mismatch, success := false, false
+		nSuccess := 0
+		forEachReturnStmt(fd.Body, func(ret *ast.ReturnStmt) {
+			if len(ret.Results) != 3 {
+				return
+			}
+			okV, isC := constBool(info, ret.Results[2])
+			if !isC {
+				return
+			}
+			atoms := core.Atoms(core.GuardsAt(info, fd.Body, ret))
+			if !okV {
+				for _, a := range atoms {
+					if isBoundaryTest(a, false) {
+						mismatch = true
+					}
+				}
+				return
+			}
+			nSuccess++
+			for _, a := range atoms {
+				if isBoundaryTest(a, true) {
+					success = true
+				}
+			}
+		})
+		r.Check(mismatch, "boundary:mismatch-return", p.Pos(fd.Pos()), "a non-rooted remainder is a mismatch", "MatchRawURL has no `no match` return for a remainder that does not start with '/': a server URL matches any URL it is a textual prefix of, in the middle of a segment or host label")
+		r.Check(nSuccess > 0 && success, "boundary:success-return", p.Pos(fd.Pos()), "success only with a rooted remainder", "MatchRawURL's success return is not guarded by the remainder starting with '/'")
 	})
 }
